@@ -1112,6 +1112,7 @@ func (c *FnCtx) checkPost(st *State, vals []string, pos token.Pos) {
 		c.oblige(st, "post", "post["+lbl+"]@"+c.retSite, g, pos, cl.Text)
 		for _, o := range c.obls[nBefore:] {
 			o.ResultTerms = vals
+			o.Cl = cl
 		}
 		c.curProp = save
 	}
